@@ -55,6 +55,20 @@ CLAIMED = {
         "equality; n=0 raises ValueError on the auxiliary route (vacuous there).",
         "Lean 4 theorems (certificate layer + Mathlib graph theory) + program-equality correspondence",
         "DESIGN.md §5 C05"),
+    "C14": (
+        "Kernel-checked theorems for ALL frame heights/widths (incl. 0 and 1), all base offsets and ALL integer coordinates: "
+        "C14_getitem (exact 3-case characterisation of doubled-coordinate addressing incl. IndexError), C14_cell, C14_vertex "
+        "(exactly the bounding / incident segments, in the documented order), C14_graph (edge i of the list handed to the loop "
+        "constraints is the segment joining exactly the two lattice points graph.edges[i]), C14_iter (all_edges = horizontal ++ "
+        "vertical, a permutation of the graph edge list, no duplicates), C14_dual (roles swap, variables stay on their segments, "
+        "dual of dual is the original), C14_names (injectivity of the naming used). Geometry spec is independent of the accessor "
+        "code and is itself executed against the real accessors. Tie: exhaustive correspondence on all frames up to 5x5 (8x8 "
+        "thorough) with a coordinate margin.",
+        "Trusted: Lean kernel + standard axioms; Spec/FrameGeom.lean as the meaning of 'the geometry'; hand-written model of "
+        "grid_frame.py/_from_grid_frame tied by exhaustive small-scope correspondence; theorems are about freshly allocated frames "
+        "(consecutive variable ids, checked by the harness); ill-typed arguments and 0-sized inner frames are outside the model.",
+        "Lean 4 theorems (index arithmetic) + exhaustive small-scope correspondence",
+        "DESIGN.md §5 C14"),
 }
 
 NOT_YET = "machinery for this property is still under construction in this round (model/theorems not yet committed)"
